@@ -4,7 +4,7 @@ from __future__ import annotations
 from typing import Any, Dict, List
 
 from ..sim.gen import profile
-from .simprop import (DRAIN, SimEngine, blocked_spawners_family, close_overlap_family, flush_raises_family, name_reuse_family, rejected_then_cancel_family, thousand_tasks_family, overlap_family, sweep_space,
+from .simprop import (DRAIN, SimEngine, blocked_spawners_family, close_overlap_family, double_cancel_family, flush_raises_family, flush_vs_spawner_family, name_reuse_family, rejected_then_cancel_family, thousand_tasks_family, overlap_family, sweep_space,
                       two_pools_family, worker_in_flush_family)
 
 FIN = [1, 1, 2, 2, 3, 4, 0, None]
@@ -138,9 +138,10 @@ def _c05() -> SimEngine:
 
 
 def _c06() -> SimEngine:
-    prof = profile(p_cb=0.6, p_cb_wait=0.5, p_swallow=0.2, p_cleanup=0.15, p_worker_raise=0.15, p_cb_raise=0.05,
+    prof = profile(p_cb=0.6, p_cb_wait=0.5, p_swallow=0.2, p_cleanup=0.15, p_worker_raise=0.15, p_cb_raise=0.05, p_embedded=0.3,
+                   embedded_ops=["cancel", "cancel", "cancel", "cancel_group", "spawn", "flush", "gate"],
                    ops={"cancel": 9, "flush": 2.5, "cancel_group": 0.5, "spawn": 7, "tick": 7, "gate": 5, "stop": 0.5, "close": 0.3},
-                   cancel_refs=["run", "run", "run", "live", "stale", "never", "neg", "incb", "incb", "any"])
+                   cancel_refs=["run", "run", "run", "live", "stale", "never", "neg", "incb", "incb", "any", "self", "self"])
 
     def sw(tier: str):
         perts = []
@@ -346,7 +347,9 @@ _BSS = ("blocked-spawners family on SimpleTaskPool followed by stop(1), stop(2)"
                                                    {"op": "settle"}], classes=("SimpleTaskPool",)))
 _FX = ("flush-raises family (flush() raising over a failed task while a cancelled one sits in its callback, ids probed afterwards)", lambda t: flush_raises_family(_thin(t, 3)))
 _RC = ("rejected-then-cancel family (a request rejected for each cause while a spawner waits, then the group cancelled or not)", lambda t: rejected_then_cancel_family(_thin(t, 2)))
-FAMILIES = {"C09": [_RC], "C02": [_BS], "C03": [_TP, _FX], "C04": [_NR, _BS], "C06": [_WF, _TP, _FR, _FX], "C13": [_FX], "C07": [_NR, _WF], "C10": [_NR], "C11": [_BS, _TP, ("thousand-tasks family (ids with four digits in task names, groups, callbacks)", lambda t: thousand_tasks_family())], "C14": [_BSS]}
+_FS = ("flush-vs-spawner family (flush/close waiting on a slow end callback while a waiting spawner is handed the freed room and is cancelled)", lambda t: flush_vs_spawner_family(_thin(t, 2)))
+_DC = ("double-cancel family (a task in its slow cancel callback is hit by a group / global / repeated cancellation, then flush or close)", lambda t: double_cancel_family(_thin(t, 2)))
+FAMILIES = {"C09": [_RC], "C01": [_FS], "C08": [_FS, _DC], "C02": [_BS, _FS, _DC], "C03": [_TP, _FX, _DC], "C04": [_NR, _BS], "C06": [_WF, _TP, _FR, _FX], "C13": [_FX], "C07": [_NR, _WF, _FS, _DC], "C10": [_NR], "C11": [_BS, _TP, ("thousand-tasks family (ids with four digits in task names, groups, callbacks)", lambda t: thousand_tasks_family())], "C14": [_BSS]}
 
 
 def make(pid: str) -> SimEngine:
